@@ -395,6 +395,9 @@ func (brr *BalanceRR) simpleBalance() (*backend.BfeBackend, error) {
 	defer brr.Unlock()
 
 	backends := brr.backends
+	if len(backends) == 0 {
+		return nil, fmt.Errorf("rr_bal:all backend is down")
+	}
 	allBackendDown := true
 
 	next := brr.next
@@ -413,7 +416,7 @@ func (brr *BalanceRR) simpleBalance() (*backend.BfeBackend, error) {
 				backend.Name, avail, backendRR.weight)
 		}
 
-		if avail && backendRR.weight != 0 {
+		if avail && backendRR.weight > 0 {
 			allBackendDown = false
 		}
 
@@ -434,6 +437,8 @@ func (brr *BalanceRR) simpleBalance() (*backend.BfeBackend, error) {
 				brr.initWeight()
 				brr.next = 0
 				next = 0
+				// all backends may be down in the next round
+				allBackendDown = true
 			}
 		}
 	}
